@@ -507,7 +507,16 @@ def sanitized_here(fl, site_bb, desc):
             if not desc_mentions(test, lambda d: d[0] == "call" and d[1].split("::")[-1] in ("get_node", "get_node_index", "get")):
                 good_edges.append((bb, f_succ))
                 why.append("!is_some at %s" % loc_str(b.blocks[bb].term.span))
-    if good_edges and site_bb not in _reach_without_edges(b, good_edges):
+    # a boolean computed from an existence test and tested later (`let missing = names.is_some_and(|n| !g.has_nodes(n));
+    # if missing { return Err }`): the paths on which that test is known to be true are avoided as well
+    conds = set()
+    for t_ in b.calls():
+        if t_.callee and t_.callee.short.split("::")[-1] in ("contains_key", "has_node", "has_nodes", "contains") and t_.dest.ty == "bool":
+            if any(mentions_root(norm(fl.describe(a_, depth=8))) for a_ in t_.args[1:]):
+                conds.add((t_.bb, True))
+    if (good_edges or conds) and site_bb not in _reach_without_edges(b, good_edges, conds):
+        if conds and not why:
+            why.append("existence test result tested later")
         return "; ".join(why)
     # `ensure_xxx(graph, names)?`: the Ok edge of a crate function that itself returns Ok only behind an
     # existence test of that parameter
@@ -638,8 +647,8 @@ def trace_name_taint(prog, flows, body, bb, operand, depth=0, seen=None):
     return out
 
 
-def _reach_without_edges(body, edges):
-    return body.reach_avoiding_edges(edges)
+def _reach_without_edges(body, edges, conds=()):
+    return body.reach_avoiding_edges(edges, conds=conds)
 
 
 def has_error_channel(body):
